@@ -45,18 +45,29 @@ JAVA_ENV = {"JAVA_TOOL_OPTIONS": "-XX:ParallelGCThreads=2"}
 # configurations: deterministic, seed-independent
 
 def async_configs(quick):
+    """gating layouts: groups with NO written terminal (pure monitoring: the clean-up has nobody to
+    ask back), with one, and with several, for one to three terminals; with and without FMMUs,
+    bus delays and slow AL transitions"""
     from harness.lifecycle import config
     out = []
     for kind in ("slow", "fast"):
-        out.append(config(kind, 3, (True, True, False), (4, 4, 4)))
+        # every read/write layout of one and two terminals
+        out.append(config(kind, 1, (False,), (4,)))
+        out.append(config(kind, 1, (True,), (4,), delay=0.012 if not quick else 0.0))
+        out.append(config(kind, 2, (False, False), (4, 4)))
         out.append(config(kind, 2, (True, False), (2, 4), delay=0.0005, al_lag=1))
+        out.append(config(kind, 2, (False, True), (4, 4), fmmu=(True, False)))
         out.append(config(kind, 2, (True, True), (4, 4), fmmu=(False, True)))
+        # three terminals: none, two, all written
+        out.append(config(kind, 3, (False, False, False), (4, 2, 4), delay=0.0005, al_lag=1))
+        out.append(config(kind, 3, (True, True, False), (4, 4, 4)))
         out.append(config(kind, 3, (True, True, True), (4, 2, 4), delay=0.003, al_lag=2))
         if not quick:
             out.append(config(kind, 3, (False, True, True), (4, 4, 4), delay=0.0, al_lag=1,
                               cycletime=0.002))
-            out.append(config(kind, 1, (True,), (4,), delay=0.012))
-            out.append(config(kind, 2, (False, False), (4, 4)))
+            out.append(config(kind, 3, (False, False, True), (4, 4, 4), fmmu=(False, False, False)))
+            out.append(config(kind, 2, (False, False), (2, 2), delay=0.003, al_lag=2,
+                              fmmu=(False, True)))
     return out
 
 
@@ -83,7 +94,7 @@ def depth_rule(quick, cfg):
         return (lambda k, n: 1) if quick else (lambda k, n: 2)
     if not quick and cfg in async_configs(False):
         return lambda k, n: 3
-    return lambda k, n: 3 if k == n and sum(cfg["rw"]) >= 2 else 2
+    return lambda k, n: 3 if k == n else 2
 
 
 def random_config(rng):
@@ -91,7 +102,8 @@ def random_config(rng):
     from harness.lifecycle import config
     n = rng.randint(1, 3)
     return config(rng.choice(["slow", "fast"]), n,
-                  tuple(rng.random() < 0.6 for _ in range(n)),
+                  rng.choice([(False,) * n, tuple(rng.random() < 0.6 for _ in range(n)),
+                              tuple(rng.random() < 0.6 for _ in range(n))]),
                   tuple(rng.choice([2, 4, 4]) for _ in range(n)),
                   delay=rng.choice([0.0, 0.0005, 0.003, 0.012]), al_lag=rng.randint(0, 2),
                   fmmu=tuple(rng.random() < 0.75 for _ in range(n)),
@@ -109,6 +121,10 @@ def process_cases(quick):
             out.append(dict(kind="process", cfg=cfg, point=point, second=None))
         for point in ("k1", "cycling") if quick else ("k1", "k2", "cycling", "exitrace"):
             out.append(dict(kind="process", cfg=cfg, point=point, second="waiting"))
+    # a pure monitoring group (no written terminal) in a child
+    mon = config("process", 2, (False, False), (4, 4))
+    for point in ("k1", "cycling") if quick else ("k0", "k1", "cycling", "exitrace"):
+        out.append(dict(kind="process", cfg=mon, point=point, second=None))
     return out
 
 
